@@ -10,6 +10,14 @@ E3 = "procsim (process-level simulator: strace syscall fault / kill injection)"
 
 # id -> (engine, category, technique, level text, level note, design ref)
 CHECKS = {
+ "C15": (E3, "fault_enumeration",
+   "process-level deterministic simulation: the real client in its own process under strace; SIGKILL on entry to, and EIO/ENOSPC/EACCES from, every datastore system call position enumerated from a dry run; plus a genuinely full tmpfs; follow-up cycles as oracle",
+   "Per seeded template a successful cycle 1, then cycle 2 against a newer repository is re-executed once per fault position: every open-for-write, write, rename and unlink that touches a datastore file (positions taken from a dry run of the binary under test, traced with strace -P so that only datastore calls are counted), each with SIGKILL at entry, EIO, ENOSPC (EACCES for opens), and the datastore on a tmpfs with 0..2 free pages. Each resulting datastore is offered three replayed older repositories (must be refused) and the current one (must load).",
+   "Process death, not power loss (no page-cache loss; missing fsync invisible). Datastore I/O must come from one thread in a stable order (checked by two dry runs per template). Writes to temporary files whose names are random are reached through the rename that publishes them and through the full-disk fault, not individually.", "DESIGN.md §5 C15"),
+ "C20": (E3, "exploration",
+   "process-level simulation of an operator: seeded command programs on the real tuftool binary with syscall failures (rename/link, unlink, fsync, open of root.json) and a full tmpfs inside a third of the commands; reference model of the root as oracle",
+   "Programs of 3..12 `tuftool root` subcommands over 1..3 keys (RSA, ECDSA, Ed25519) including commands that must fail; inside a seeded third of them one fault is active. Oracle (outcome-based): exit 0 => the file parses as a root, every key id is the digest of its key (two independent canonical-JSON encoders), content equals the model implied by the commands so far, content-changing commands leave no signatures, a plain `sign` leaves a root that verifies under its own root keys and threshold; exit != 0 => root.json is byte-identical to before.",
+   "Signature validity comes from the tough library (checked by C01) plus an independent Ed25519 check. tuftool's runtime is multi-threaded, so faults are thread-agnostic ('every call of this kind fails').", "DESIGN.md §5 C20"),
  "C10": (E1, "exploration",
    "deterministic simulation with tough's real editor as the publisher: seeded editing programs against a reference model, reload through the simulated mirror, and the cross-party flow with hostile incoming metadata",
    "Seeded programs drive RepositoryEditor over a delegation tree of depth <=3 (roles with 0..40 targets so delegated files are smaller and larger than targets.json, 1..3 keys of mixed algorithms, thresholds 1..3, noise operations), sign with adequate or inadequate key sets, write, publish targets by copy or symlink, then reload with the real client. Oracle: if sign and write succeeded the result loads; targets, delegation structure, versions, expirations equal the model; every snapshot/timestamp meta entry equals (version, length, sha256) of the written file; every target reads back. Cross-party: a role holder edits and signs its role with TargetsEditor; the incoming file is genuine, under-signed, carries a duplicated signature, is signed by wrong keys, or is older; update_delegated_targets must accept exactly the genuine one.",
@@ -113,7 +121,7 @@ def main():
             engines.append({"name": name, "path": path, "serves_properties": served, "kind_free_text": "deterministic simulation with fault injection"})
     m = {
         "version": 1,
-        "setup_cmd": "cd /verif/sim && CARGO_NET_OFFLINE=true cargo build --release --offline",
+        "setup_cmd": "cd /verif/sim && CARGO_NET_OFFLINE=true cargo build --release --offline && cd /repo && CARGO_NET_OFFLINE=true CARGO_TARGET_DIR=/verif/target/tuftool cargo build --release --offline -p tuftool",
         "hooks": {
             "guard": "cargo feature `verif-hooks` on crate tough (off by default)",
             "enable": "the harness crate /verif/sim depends on /repo/tough with features [\"http\", \"verif-hooks\"]; ./check rebuilds it from /repo's working tree",
